@@ -108,6 +108,8 @@ func ruleSizeGuard(c *Ctx, pkgs ...string) {
 							}
 						case *ssa.MapUpdate, *ssa.Send, *ssa.Go, *ssa.Defer, *ssa.Panic:
 							ok = false
+						case *ssa.Lookup, *ssa.Range, *ssa.Next, *ssa.Index, *ssa.IndexAddr:
+							ok = false // looks at the contents of something: not an exit that ignores them
 						case *ssa.Call:
 							if bi, isB := y.Call.Value.(*ssa.Builtin); !isB {
 								ok = false
@@ -135,8 +137,43 @@ func ruleSizeGuard(c *Ctx, pkgs ...string) {
 				walk(start)
 				return ok && sawReturn
 			}
+			// worked: something has already been done to the receiver when control reaches the end of b (a store that
+			// is not into a fresh allocation, a map update, a call) — an exit behind it is not one that does nothing
+			worked := func(b *ssa.BasicBlock) bool {
+				for _, d := range fn.Blocks {
+					if !d.Dominates(b) {
+						continue
+					}
+					for _, in := range d.Instrs {
+						switch y := in.(type) {
+						case *ssa.Store:
+							base := y.Addr
+							for {
+								switch a := base.(type) {
+								case *ssa.FieldAddr:
+									base = a.X
+									continue
+								case *ssa.IndexAddr:
+									base = a.X
+									continue
+								}
+								break
+							}
+							if _, isAlloc := base.(*ssa.Alloc); !isAlloc {
+								return true
+							}
+						case *ssa.MapUpdate:
+							return true
+						}
+					}
+				}
+				return false
+			}
 			n := 0
 			for _, b := range fn.Blocks {
+				if worked(b) {
+					continue
+				}
 				iff, ok := b.Instrs[len(b.Instrs)-1].(*ssa.If)
 				if !ok {
 					continue
@@ -187,9 +224,11 @@ func ruleSizeGuard(c *Ctx, pkgs ...string) {
 								if _, g := loadedField(ret.Results[0]); g != nil && sameField(g, f) {
 									sized = x
 									desc = ksym(x)
-								} else if g != nil && isIntType(f.Type()) {
+								} else if g != nil && isIntType(f.Type()) && (token.IsExported(fn.Name()) || fn.Signature.Results().Len() > 0) {
 									// another integer field of a container whose size is a field: an exit that does
-									// nothing must not be keyed on it
+									// nothing must not be keyed on it (an operation of the container, or a helper
+									// that answers something; a private helper that only normalises that field —
+									// `if q.head <= 0 { return }` in front of a rotation — is about that field)
 									for si, sb := range b.Succs {
 										if quiet(sb, b) {
 											if kk, ok := constInt(y); ok {
